@@ -8,6 +8,7 @@ import PydapModel.Handler
 import Proofs.Handler
 import Proofs.HandlerWF
 import Proofs.CeSrc
+import Proofs.HlibSrc
 namespace Pydap.C15
 open Pydap Pydap.Handler
 
@@ -251,5 +252,54 @@ example : handle intText dsA (cs!"/d.dods") (cs!"a[1],a[1]") = .errdoc (-1) := b
 example : handle intText dsA (cs!"/d.dods") (cs!"a[1:20]")
     = .ok .dods (.complete (cs!"Dataset {\n    Int32 a[a = 2];\n} d;\nData:\n6 7")) := by decide +kernel
 example : validSl 3 ⟨some 1, some 21, some 1⟩ = true ∧ validSl 3 ⟨some 3, some 4, some 1⟩ = false := by decide
+
+/-! ### the tie by translation: the *source text* of `check_hyperslab` is the guard of `sliceBase`
+
+`Pydap.Gen.src_check_hyperslab` (PydapModel/Generated/HlibSrc.lean) is the MiniPy syntax tree of the whole body of
+handlers/lib.py `check_hyperslab` — the length test, the loop `for s, n in zip(slice_, shape)` (a MiniPy `forZip`),
+`slice(s, s + 1, 1)` for an int index, the three defaults, `inside` with its empty-axis clause and the final test —
+regenerated from the file on every run by `harness/py2lean.py`.  The inputs are the index tuple (ints and slice
+objects with int-or-None fields) and the shape; the text of the exception message is not carried. -/
+
+open MiniPy in
+/-- for every index tuple and every shape the interpreted source returns normally exactly when the tuple is not longer
+    than the shape and `validSl` holds on every axis (an int `i` read as `slice(i, i + 1, 1)`), and raises
+    `ConstraintExpressionError` otherwise -/
+theorem C15_source_check_hyperslab (its : List Item) (shape : List Nat) :
+    runItem [("slice_", .tuple its), ("shape", shapeVal shape)] Gen.src_check_hyperslab "shape"
+      = if its.length ≤ shape.length ∧ (List.zipWith validSl shape (its.map itemSlice)).all id = true then
+          .ok (shapeVal shape)
+        else .error (.raised "ConstraintExpressionError") :=
+  src_check_hyperslab_eq its shape
+
+open MiniPy in
+/-- … so on the slice tuples of the model (`parse_hyperslab` only produces slices) the source raises exactly when
+    `sliceBase` answers `ConstraintExpressionError`, and returns exactly when `sliceBase` applies the selection -/
+theorem C15_source_check_hyperslab_sliceBase (b : Base) (sl : List PSlice) :
+    (runItem [("slice_", .tuple (sl.map sliceItem)), ("shape", shapeVal b.shape)] Gen.src_check_hyperslab "shape"
+        = .error (.raised "ConstraintExpressionError") ↔ sliceBase b sl = .error .ceError) ∧
+    (runItem [("slice_", .tuple (sl.map sliceItem)), ("shape", shapeVal b.shape)] Gen.src_check_hyperslab "shape"
+        = .ok (shapeVal b.shape) ↔ ∃ b', sliceBase b sl = .ok b') := by
+  rw [src_check_hyperslab_eq]
+  simp only [List.length_map, List.map_map, Function.comp_def, itemSlice_sliceItem, List.map_id']
+  unfold sliceBase
+  by_cases h : sl.length ≤ b.shape.length ∧ (List.zipWith validSl b.shape sl).all id = true
+  · rw [if_pos h, if_pos h]
+    exact ⟨⟨(fun e => by cases e), (fun e => by cases e)⟩, ⟨fun _ => ⟨_, rfl⟩, fun _ => rfl⟩⟩
+  · rw [if_neg h, if_neg h]
+    exact ⟨⟨fun _ => rfl, fun _ => rfl⟩, ⟨(fun e => by cases e), (fun ⟨_, e⟩ => by cases e)⟩⟩
+
+open MiniPy in
+example : runItem [("slice_", .tuple [.slice (some 1) (some 21) (some 1)]), ("shape", shapeVal [3])]
+    Gen.src_check_hyperslab "shape" = .ok (shapeVal [3]) := by decide
+open MiniPy in
+example : runItem [("slice_", .tuple [.int 3]), ("shape", shapeVal [3])]
+    Gen.src_check_hyperslab "shape" = .error (.raised "ConstraintExpressionError") := by decide
+open MiniPy in
+example : runItem [("slice_", .tuple [.slice (some 0) (some 1) none]), ("shape", shapeVal [0])]
+    Gen.src_check_hyperslab "shape" = .ok (shapeVal [0]) := by decide
+open MiniPy in
+example : runItem [("slice_", .tuple [.int 0, .int 0]), ("shape", shapeVal [3])]
+    Gen.src_check_hyperslab "shape" = .error (.raised "ConstraintExpressionError") := by decide
 
 end Pydap.C15
